@@ -415,6 +415,61 @@ pub fn main(args: &[String]) {
             }
             rep.traces = rep.evaluations;
         }
+        Some("fdselect") => {
+            // FdSelect.tla: every table of the family (formats 0, 3, 4; no, unsorted and repeated ranges incl.) as raw bytes
+            // through FdSelect::font_index for glyphs before, inside and beyond the ranges
+            use read_fonts::tables::postscript::FdSelect;
+            use read_fonts::{FontData, FontRead};
+            let path = arg_after(args, "--cases").expect("--cases");
+            fvcore::tlc_stream(&path, &["FDSCASE"], |_, c| {
+                rep.evaluations += 1;
+                let t = &c["table"];
+                let fmt = t["fmt"].as_u64().unwrap();
+                let mut b: Vec<u8> = vec![fmt as u8];
+                if fmt == 0 {
+                    b.extend(t["fds"].as_array().unwrap().iter().map(|x| x.as_u64().unwrap() as u8));
+                } else {
+                    let rs = t["ranges"].as_array().unwrap();
+                    if fmt == 3 {
+                        b.extend((rs.len() as u16).to_be_bytes());
+                        for r in rs {
+                            b.extend((r[0].as_u64().unwrap() as u16).to_be_bytes());
+                            b.push(r[1].as_u64().unwrap() as u8);
+                        }
+                        b.extend((t["sentinel"].as_u64().unwrap() as u16).to_be_bytes());
+                    } else {
+                        b.extend((rs.len() as u32).to_be_bytes());
+                        for r in rs {
+                            b.extend((r[0].as_u64().unwrap() as u32).to_be_bytes());
+                            b.extend((r[1].as_u64().unwrap() as u16).to_be_bytes());
+                        }
+                        b.extend((t["sentinel"].as_u64().unwrap() as u32).to_be_bytes());
+                    }
+                }
+                let case = json!({"kind": "fdselect-case", "bytes": b});
+                let answers = c["answers"].as_object().unwrap();
+                let got = guarded(|| -> Result<Vec<(String, i64)>, String> {
+                    let f = FdSelect::read(FontData::new(&b)).map_err(|e| format!("{e:?}"))?;
+                    Ok(answers.keys().map(|k| (k.clone(), f.font_index(font_types::GlyphId::new(k.parse::<u32>().unwrap())).map(|v| v as i64).unwrap_or(-1))).collect())
+                });
+                match got {
+                    Err(p) => rep.violation(&format!("FDSelect lookup panicked: {p}"), case),
+                    Ok(Err(_)) => rep.add("table_rejected", 1),
+                    Ok(Ok(g)) => {
+                        // unsorted ranges: whatever the binary search lands on; only sorted tables are compared
+                        if c["sorted"] == true && g.iter().any(|(k, v)| answers[k].as_i64() != Some(*v)) {
+                            rep.add("outcome_differs_from_model", 1);
+                            if rep.samples.len() < 4 {
+                                rep.sample(json!({"case": case, "model": c["answers"], "real": g}));
+                            }
+                        } else {
+                            rep.distinct += 1;
+                        }
+                    }
+                }
+            });
+            rep.traces = rep.evaluations;
+        }
         Some("corpus") => {
             use read_fonts::TableProvider;
             let per_font: usize = arg_after(args, "--per-font").map(|s| s.parse().unwrap()).unwrap_or(40);
